@@ -22,7 +22,7 @@ CFG = dict(
         "parser layout-insensitivity beyond the token stream: proved only up to the lexer (equal token streams); that rsql's parser is a function of the "
         "token stream is false in general (parseLimit, parseOrderBy, parseWith and an error path read the raw input) and is checked per generated statement "
         "across 5 layouts, not proved",
-        "not in the reference grammar (covered only by the totality search): analytic functions with OVER, SUBSET / AFTER MATCH SKIP / PERMUTE in MATCH_RECOGNIZE, array indexing, nested function calls in select items",
+        "not in the reference grammar (covered only by the totality search): analytic functions with OVER, SUBSET / AFTER MATCH SKIP / PERMUTE in MATCH_RECOGNIZE, array indexing, nested function calls in select items Added late: CASE items with numbers right after THEN / ELSE. Every fifth case runs under WithHighPerformance (`preset high`), for C05/C06/C12/C13/C14/C16/C20 another fifth under WithLowLatency (`preset low`); every seventh case follows a noise prelude (failing statements, malformed rows, panicking sink / function in other instances).",
     ],
     assumptions=[
         "SEARCH, not proof: parser totality (op `total`) explores a finite sample of inputs per run; a pass means no panic/hang was found",
